@@ -4,9 +4,11 @@ package plugin
 
 import (
 	"fmt"
+	"net"
 	"net/netip"
 	"sort"
 	"testing"
+	"testing/synctest"
 	"time"
 
 	"github.com/mdlayher/corerad/internal/system"
@@ -30,6 +32,7 @@ func TestVerif(t *testing.T) {
 	switch prop {
 	case "C16":
 		verifC16(t, r, out)
+		verifC16Prepared(t, r, out)
 	case "C13":
 		verifC13(t, r, out)
 	case "C14":
@@ -209,6 +212,111 @@ func verifC16(t *testing.T, r *vfh.Rand, out *vfh.Out) {
 			out.Line(c.String(), impl.String())
 		}
 	}
+}
+
+
+// verifC16Prepared: the same observations with the clock the daemon really uses — the plugin is
+// handed to Prepare (which installs time.Now) instead of an injected TimeNow. Inside a
+// testing/synctest bubble time.Now is a virtual clock that only moves when the harness sleeps,
+// so the reading each Apply sees is known exactly.
+func verifC16Prepared(t *testing.T, r *vfh.Rand, out *vfh.Out) {
+	n := vfh.N(300, 5000)
+	ifi := &net.Interface{Index: 1, Name: "lo"}
+	for k := 0; k < n; k++ {
+		synctest.Test(t, func(t *testing.T) {
+			dep := r.Chance(4, 5)
+			V := time.Duration(r.Range(1, int64(2*time.Hour)))
+			P := V
+			if r.Chance(3, 4) {
+				P = time.Duration(r.Range(1, int64(V)))
+			}
+			// the daemon started `age` ago
+			age := time.Duration(r.Range(0, int64(3*time.Hour)))
+			epoch := time.Now().Add(-age)
+			e := epoch.UnixNano()
+			steps := 2 + r.Intn(5)
+			if r.Bool() {
+				p := &Prefix{Prefix: netip.MustParsePrefix("2001:db8::/64"), OnLink: true, Autonomous: true,
+					ValidLifetime: V, PreferredLifetime: P, Deprecated: dep, Epoch: epoch}
+				if err := p.Prepare(ifi); err != nil {
+					t.Fatalf("Prefix.Prepare: %v", err)
+				}
+				var ts []int64
+				impl := new(vfh.Toks)
+				defer func() {
+					c := new(vfh.Toks).S("pl").B(dep).I(e).I(int64(V)).I(int64(P)).I(0).N(len(ts))
+					for _, ti := range ts {
+						c.I(ti)
+					}
+					out.Line(c.String(), impl.String())
+				}()
+				for i := 0; i < steps; i++ {
+					c16Advance(r, epoch, []time.Duration{V, P})
+					ts = append(ts, time.Now().UnixNano())
+					ra := &ndp.RouterAdvertisement{}
+					if err := p.Apply(ra); err != nil || len(ra.Options) != 1 {
+						impl.S("apply-failed")
+						break
+					}
+					pi := ra.Options[0].(*ndp.PrefixInformation)
+					impl.I(int64(pi.ValidLifetime)).I(int64(pi.PreferredLifetime)).N(1)
+				}
+			} else {
+				rt := &Route{Prefix: netip.MustParsePrefix("2001:db8:1::/48"), Preference: ndp.Medium,
+					Lifetime: V, Deprecated: dep, Epoch: epoch}
+				if err := rt.Prepare(ifi); err != nil {
+					t.Fatalf("Route.Prepare: %v", err)
+				}
+				var ts []int64
+				impl := new(vfh.Toks)
+				defer func() {
+					c := new(vfh.Toks).S("rl").B(dep).I(e).I(int64(V)).I(0).N(len(ts))
+					for _, ti := range ts {
+						c.I(ti)
+					}
+					out.Line(c.String(), impl.String())
+				}()
+				for i := 0; i < steps; i++ {
+					c16Advance(r, epoch, []time.Duration{V})
+					ts = append(ts, time.Now().UnixNano())
+					ra := &ndp.RouterAdvertisement{}
+					if err := rt.Apply(ra); err != nil || len(ra.Options) != 1 {
+						impl.S("apply-failed")
+						break
+					}
+					ri := ra.Options[0].(*ndp.RouteInformation)
+					impl.I(int64(ri.RouteLifetime)).N(1)
+				}
+			}
+		})
+	}
+}
+
+// c16Advance moves the bubble's clock forward: by a random amount, or exactly onto / just
+// before / just after one of the deadlines when that is still ahead.
+func c16Advance(r *vfh.Rand, epoch time.Time, lifetimes []time.Duration) {
+	now := time.Now()
+	dl := epoch.Add(vfh.Pick(r, lifetimes))
+	switch r.Intn(5) {
+	case 0:
+		if d := dl.Sub(now); d > 0 {
+			time.Sleep(d)
+			return
+		}
+	case 1:
+		if d := dl.Sub(now) - 1; d > 0 {
+			time.Sleep(d)
+			return
+		}
+	case 2:
+		if d := dl.Sub(now) + 1; d > 0 {
+			time.Sleep(d)
+			return
+		}
+	case 3:
+		return // same instant as the previous reading
+	}
+	time.Sleep(time.Duration(r.Range(1, int64(40*time.Minute))))
 }
 
 var _ = fmt.Sprint
